@@ -825,6 +825,7 @@ _EXCL_STAGES = lambda: [
 ]
 
 PROPS["C09"] = dict(
+    pre_coq=[lambda: c11_pre_coq()],   # C09_impl_* are stated over the lock/access facts translated from the current exclusive.go
     rule="C09K1: seeded gated scripts on 1-3 keys: calls of all 8 styles (Call, CallAfter, CallAsync, CallAfterAsync, Start, StartAfter, CallWithOptions "
          "work-style with and without ExclusiveStart) whose functions are held by the harness before resolve and/or before return, or return without "
          "resolving, issued while earlier work is idle / inside a CallAfter wait / running / resolved-not-returned, with quiescence waits between actions; "
